@@ -142,6 +142,31 @@ def table_walorder():
     fi = flushes(r"impl\s+Iterator\s+for\s+IncomingNeighborsIter")
     if fo != fi:
         raise ValueError("NeighborsIter and IncomingNeighborsIter differ in the flush before the segment phase")
+    # IdMap::load: how the node table is read back — record by record (record k at page start + k / R,
+    # slot k % R, via i2e_location), or page by page (then: how many slots of the LAST page are read)
+    idm = src("nervusdb-storage/src/idmap.rs")
+    lb = impl_fn_body(idm, r"impl\s+IdMap\b", "load")
+    per_record = bool(re.search(r"for\s+\w+\s+in\s+0\s*\.\.\s*i2e_len\b", lb)) and "read_i2e_record(" in lb
+    per_page = bool(re.search(r"for\s+(\w+)\s+in\s+0\s*\.\.\s*page_count\b", lb))
+    last_modulo = False
+    if per_record == per_page:
+        raise ValueError("IdMap::load: neither the per-record nor the per-page loop recognised")
+    if per_record:
+        rb = fn_body(idm, "read_i2e_record")
+        lc = fn_body(idm, "i2e_location")
+        if "i2e_location(" not in rb or not re.search(r"/\s*I2E_RECORDS_PER_PAGE", lc) or not re.search(r"%\s*I2E_RECORDS_PER_PAGE", lc):
+            raise ValueError("IdMap::load: read_i2e_record / i2e_location (k / R, k % R) not recognised")
+    else:
+        m_in = re.search(r"let\s+in_page\s*=\s*if[^{]*\{\s*([^}]*)\}\s*else\s*\{\s*([^}]*)\}", lb)
+        if not m_in or m_in.group(2).strip() != "I2E_RECORDS_PER_PAGE":
+            raise ValueError("IdMap::load: slot count of a page not recognised")
+        last = re.sub(r"\s+", "", m_in.group(1))
+        if last == "count%I2E_RECORDS_PER_PAGE":
+            last_modulo = True
+        elif last in ("count-page_index*I2E_RECORDS_PER_PAGE", "count-(page_count-1)*I2E_RECORDS_PER_PAGE"):
+            last_modulo = False
+        else:
+            raise ValueError(f"IdMap::load: slot count of the last page not recognised: {last}")
     out = ["-- regenerated by tools/extract.py from the current source; do not edit",
            "namespace Nervus.Generated",
            "/-- graph record kinds written by `WriteTxn::commit` -/",
@@ -166,6 +191,10 @@ def table_walorder():
            f"def replayResetsPendingAtBegin : Bool := {'true' if resets else 'false'}",
            "/-- read_path_iters.rs: the iterators fold the last run's pending tombstones before the segment phase -/",
            f"def itersFlushBeforeSegments : Bool := {'true' if fo else 'false'}",
+           "/-- idmap.rs IdMap::load reads the node table record by record (read_i2e_record / i2e_location) -/",
+           f"def idmapLoadPerRecord : Bool := {'true' if per_record else 'false'}",
+           "/-- idmap.rs IdMap::load (page-by-page shape): the last page is read up to `count % R` slots -/",
+           f"def idmapLoadLastPageModulo : Bool := {'true' if last_modulo else 'false'}",
            "end Nervus.Generated"]
     return "\n".join(out) + "\n"
 
